@@ -72,12 +72,45 @@ func sigOf(r *Runner, extra ...uint64) uint64 {
 }
 
 func init() {
-	probeNames["C03"] = []string{"commit_ok", "tx_aborted", "reopen", "out_of_memory", "batch_gt12", "batch_dup_page", "rollback_after_flush", "wal_page_in_use", "checkpoint_with_wal_entries", "maintenance_tx"}
+	probeNames["C03"] = []string{"commit_ok", "tx_aborted", "reopen", "out_of_memory", "batch_gt12", "batch_dup_page", "rollback_after_flush", "wal_page_in_use", "checkpoint_with_wal_entries", "maintenance_tx", "huge_checkpoint"}
 	register(&PropDef{
 		ID: "C03", Level: "exploration", QuickSec: 50, ThoroSec: 900,
-		Rule: "each run = one seeded txops history (3-20 transactions: alloc/AllocN/full+partial SetBytes/Load+MarkDirty/Page.Flush/Tx.Flush/Free/SetRoot/CheckpointWAL/commit/rollback/close/reopen) on a drawn configuration (page size, max size, init meta area, WAL limit, grow pct, sync mode) under a drawn scheduler policy (stickiness, writer-goroutine weight => write batching); model check inside the write tx, after every transaction and after reopen. Non-trivial = at least one successful commit that overwrote or freed a committed page; distinct = hash of executed op list + configuration + schedule.",
+		Rule: "each run = one seeded txops history (3-20 transactions: alloc/AllocN/full+partial SetBytes/Load+MarkDirty/Page.Flush/Tx.Flush/Free/SetRoot/CheckpointWAL/commit/rollback/close/reopen) on a drawn configuration (page size, max size, init meta area, WAL limit, grow pct, sync mode) under a drawn scheduler policy (stickiness, writer-goroutine weight => write batching); model check inside the write tx, after every transaction and after reopen; 1 run in 1000 is a huge-checkpoint run (about 13 s each) (2060-2360 pages of 4 KiB overwritten in one transaction, then one CheckpointWAL copying all of them while the writer goroutine lags). Non-trivial = at least one successful commit that overwrote or freed a committed page; distinct = hash of executed op list + configuration + schedule.",
 		Real: defaultReal, Stub: defaultStub, Assume: defaultAssume,
 		Body: func(e *Env) {
+			c := e.Case
+			vr := e.Rng("c03variant")
+			if c.Cfg == nil && vr.Intn(1000) == 0 {
+				// "huge checkpoint" variant: one checkpoint copies more than 2048
+				// overwrite pages (8 MiB at 4 KiB pages) while the writer goroutine lags
+				cfg := DrawCfg(e.Rng("cfg"), -1)
+				cfg.PageSize, cfg.MaxSize, cfg.InitMeta = 4096, 0, []int{0, 16}[vr.Intn(2)]
+				cfg.BgWeight, cfg.Stick, cfg.WALLimit = 0.05, 0.9, 100000
+				cfg.NTx, cfg.Variant = 4, 9
+				c.Cfg = &cfg
+				n := 2060 + vr.Intn(300)
+				ops := []Op{{K: "begin"}}
+				for left := n; left > 0; left -= 250 {
+					ops = append(ops, Op{K: "allocn", A: min(left, 250)})
+				}
+				for i := 0; i < n; i++ {
+					ops = append(ops, Op{K: "setfull", A: i})
+				}
+				ops = append(ops, Op{K: "commit"}, Op{K: "begin"})
+				for i := 0; i < n; i++ {
+					ops = append(ops, Op{K: "setfull", A: i})
+				}
+				ops = append(ops, Op{K: "commit"}, Op{K: "begin"})
+				if vr.Intn(2) == 0 {
+					ops = append(ops, Op{K: "touch", A: vr.Intn(n)}, Op{K: "checkpoint"}, Op{K: "readv", A: vr.Intn(n)}, Op{K: "commit"})
+				} else {
+					ops = append(ops, Op{K: "checkpoint"}, Op{K: "setfull", A: vr.Intn(n)}, Op{K: "commit"})
+				}
+				c.Tasks = map[string][]Op{"main": ops}
+			}
+			if c.Cfg != nil && c.Cfg.Variant == 9 {
+				e.Probe("huge_checkpoint")
+			}
 			r := txWorkload(e, 0, nil)
 			if !e.Failed() && r.F != nil {
 				r.Reopen()
